@@ -26,6 +26,20 @@ Proof.
   apply reachP_ind; [apply tokinv_init|]. intros. eapply tokinv_step; eauto.
 Qed.
 
+(* the queues never call cond.Broadcast: its blocked state does not occur in their runs *)
+Lemma nobcast_step c s l s' z :
+  lock s <> BBcast -> wf_label c l -> step c s l = Some (s', z) -> lock s' <> BBcast.
+Proof.
+  intros N W H. revert N W. unfold wf_label. revert H.
+  step_cases; intros N W; try contradiction; try congruence; try discriminate.
+Qed.
+
+Lemma reach_nobcast c s : reachable c s -> lock s <> BBcast.
+Proof.
+  intros R. revert s R. apply (reachP_ind (wf_label c) c (fun s => lock s <> BBcast)); [discriminate|].
+  intros s0 l s1 z _ I W H. eapply nobcast_step; eauto.
+Qed.
+
 Lemma sum_sz_app2 a b : sum_sz (a ++ b) = sum_sz a + sum_sz b.
 Proof. unfold sum_sz. rewrite map_app, sumZ_app. reflexivity. Qed.
 
